@@ -108,6 +108,9 @@ def run(prop, tier, seed):
             if len(pool_) > 400 and tier == 'quick':
                 pool_ = rnd.sample(pool_, 400)
             reps = rnd.sample(pool_, min(reps_n, len(pool_)))
+            short = min(pool_, key=len)            # the shortest element of the kind is always a representative
+            if short not in reps:
+                reps.append(short)
             pairs = set()
             for a in pool_:
                 for b in reps:
@@ -116,6 +119,12 @@ def run(prop, tier, seed):
             for a, b in sorted(pairs):
                 jobs.append((ident, 'concat', kind, _cls(kind, [a, b], '%s:%d+%d' % (kind, len(a) // 2, len(b) // 2)), [a, b], None))
                 ident += 1
+            # a repeated representative followed / preceded by every element (adjacent equal elements inside a longer list)
+            for r in ([short] + reps[:1] if tier == 'quick' else reps):
+                for x in pool_:
+                    for parts in ([r, r, x], [x, r, r], [r, x, r]):
+                        jobs.append((ident, 'concat', kind, _cls(kind, parts, '%s:rep3' % kind), parts, None))
+                        ident += 1
             for _ in range(40 if tier == 'quick' else 600):          # random k-tuples
                 k = rnd.randint(3, 6)
                 parts = [rnd.choice(pool_) for _ in range(k)]
